@@ -642,6 +642,8 @@ def run(tier):
     res.floor("C06.R1j", 1)
     rule_R1k(res, prog)
     rule_R2m(res, prog)
+    rule_R1l(res, prog)
+    rule_R3b(res, prog)
 
     return res.finish()
 
@@ -760,3 +762,108 @@ def rule_R2m(res, prog):
                                  "Finished verify_data" if parser == "parseFinished" else "CertificateVerify signature"), file=fn.relfile, line=ln)
             res.instance(rid, "parseSSLHandshake:%s %s receives an initialised transcript snapshot on every path" % (ln, parser), esc is None, finding=f_)
     res.floor(rid, 2)
+
+
+def rule_R1l(res, prog):
+    """'no message accepted twice': the TLS <=1.2 client admits a NewSessionTicket on the condition sessionTicketState ==
+    RECVD_EXT (the extension was acknowledged and no ticket message has arrived yet).  The handler must falsify that
+    condition on every path on which it accepts the message - also for a zero-length ticket, which RFC 5077 3.3 allows -
+    otherwise a second NewSessionTicket is admitted.  From the entry of the NEW_SESSION_TICKET arm of parseSSLHandshake's
+    dispatch no path reaches the arm's completion (decState = NEW_SESSION_TICKET) without a store that takes
+    sessionTicketState away from RECVD_EXT."""
+    from sa import cfgutil as cu
+    rid = "C06.R1l"
+    res.rule(rid, "TLS <= 1.2 client: accepting a NewSessionTicket always withdraws the state that admitted it")
+    lst = prog.by_name.get("parseSSLHandshake")
+    if not lst:
+        raise AnalysisBroken("C06.R1l: parseSSLHandshake vanished")
+    fn = lst[0]
+    if "SESS_TICKET_STATE_RECVD_EXT" not in prog.enums and not prog.defined("USE_STATELESS_SESSION_TICKETS"):
+        res.floor(rid, 0)
+        return
+    NST = prog.const("SSL_HS_NEW_SESSION_TICKET")
+    RECVD = prog.const("SESS_TICKET_STATE_RECVD_EXT")
+    starts = []
+    for b in fn.blocks:
+        t = b.get("term")
+        if t is None or t.get("k") != "switch" or "hsState" not in cu.ftext(t.get("c") or {}):
+            continue
+        for sc in b["succ"]:
+            if sc.get("case") == NST and sc.get("b") is not None:
+                starts.append((sc["b"], t.get("ln")))
+
+    def withdraws(x):
+        for m in walk(x):
+            if m.get("k") == "bin" and m["op"] == "=" and cu.ftext(strip(m["l"]) or {}).endswith("->sessionTicketState"):
+                r = strip(m["r"])
+                if r is not None and r.get("k") == "int" and r["v"] != RECVD:
+                    return True
+        return False
+
+    def completes(x):
+        return any(m.get("k") == "bin" and m["op"] == "=" and cu.ftext(strip(m["l"]) or {}) == "ssl->decState" and
+                   (strip(m["r"]) or {}).get("k") == "int" and strip(m["r"])["v"] == NST for m in walk(x))
+    n = 0
+    for (sb, sln) in starts:
+        n += 1
+        esc = cu.escapes(fn, (sb, None), withdraws, target_expr=completes)
+        f_ = None
+        if esc is not None:
+            f_ = Finding(PROP, rid, fn.name, "NewSessionTicket accepted with its admission state left in place",
+                         "%s:%s parseSSLHandshake(): the NEW_SESSION_TICKET arm completes (via lines %s) without taking sessionTicketState away from "
+                         "RECVD_EXT: after such a message (a zero-length ticket) the dispatcher admits another NewSessionTicket and the handshake "
+                         "still completes" % (fn.relfile, esc[-1][1], [p_[1] for p_ in esc[-6:]]), file=fn.relfile, line=esc[-1][1])
+        res.instance(rid, "parseSSLHandshake: NEW_SESSION_TICKET arm (dispatch at line %s) withdraws RECVD_EXT on every accepting path" % sln,
+                     esc is None, finding=f_)
+    res.floor(rid, 1)
+
+
+def rule_R3b(res, prog):
+    """ChangeCipherSpec discipline, continued (TLS over a stream): in the record decoder's change_cipher_spec arm the read keys
+    are activated (sslActivateReadCipher) only after the tests that (a) no handshake message is half received
+    (ssl->fragMessage) - a Finished may not start in the clear and end under the new keys - and (b), with re-handshakes
+    compiled out, the read keys are not active yet (SSL_FLAGS_READ_SECURE) - a second ChangeCipherSpec would reset the read
+    sequence number.  The DTLS edge is exempt (retransmissions legitimately repeat the record; parsedCCS covers it)."""
+    from sa import cfgutil as cu
+    rid = "C06.R3b"
+    res.rule(rid, "ChangeCipherSpec (TLS over a stream): not inside a handshake message and not twice - tested before the read keys are activated")
+    fn = prog.fn("matrixSslDecodeTls12AndBelow")
+    CCS = prog.const("SSL_RECORD_TYPE_CHANGE_CIPHER_SPEC")
+    RS = prog.const("SSL_FLAGS_READ_SECURE")
+    dtls_mask = prog.enums.get("v_dtls_any")
+    starts = []
+    for b in fn.blocks:
+        t = b.get("term")
+        if t is not None and t.get("k") == "switch" and "rec.type" in cu.ftext(t.get("c") or {}):
+            for sc in b["succ"]:
+                if sc.get("case") == CCS and sc.get("b") is not None:
+                    starts.append(sc["b"])
+    if not starts:
+        raise AnalysisBroken("C06.R3b: no change_cipher_spec arm in the record type switch")
+
+    def dtls_edge(b, k):
+        import re
+        t = b.get("term")
+        if t is None or "c" not in t or len(b["succ"]) != 2 or not dtls_mask:
+            return False
+        for (txt, tr, nd) in cu._cond_atoms(t["c"], k == 0):
+            m = re.match(r"^\(ssl->activeVersion & (\d+)\)$", txt)
+            if m and tr and (int(m.group(1)) & dtls_mask) and not (int(m.group(1)) & ~dtls_mask):
+                return True
+        return False
+    tests = [("no handshake message half received", lambda x: cu.ftext(x) in ("ssl->fragMessage", "(ssl->fragMessage != 0)", "(ssl->fragMessage == 0)"))]
+    if not prog.defined("SSL_REHANDSHAKES_ENABLED"):
+        tests.append(("read keys not active yet", lambda x: cu.ftext(x) == "(ssl->flags & %d)" % RS))
+    for sb in starts:
+        for (what, pred) in tests:
+            esc = cu.escapes(fn, (sb, None), pred, exempt_edge=dtls_edge, target_expr=lambda x: cu.mentions_call(x, {"sslActivateReadCipher"}))
+            f_ = None
+            if esc is not None:
+                f_ = Finding(PROP, rid, fn.name, "read keys activated without the test `%s`" % what,
+                             "%s:%s matrixSslDecodeTls12AndBelow(): in the change_cipher_spec arm sslActivateReadCipher() is reachable (via lines %s) "
+                             "without the test `%s`: a Finished begun in an unprotected record is completed after the key change, or a second "
+                             "ChangeCipherSpec resets the read sequence number, and the handshake still completes" % (
+                                 fn.relfile, esc[-1][1], [p_[1] for p_ in esc[-6:]], what), file=fn.relfile, line=esc[-1][1])
+            res.instance(rid, "matrixSslDecodeTls12AndBelow: change_cipher_spec arm tests `%s` before activating the read keys" % what,
+                         esc is None, finding=f_)
+    res.floor(rid, 1)
